@@ -327,4 +327,4 @@ def search(ctx):
     thorough = ctx.tier == "thorough"
     ctx.enumerate(enum_cases(), "every data type at every bit offset 0..63; all 2^len values of fields <= 8 bits")
     ctx.enumerate(remap_cases(), "maps re-mapped after clear() from a longer / shorter mapping")
-    ctx.hypothesis(layout_case(), 20000 if thorough else 4000)
+    ctx.hypothesis(layout_case(), 40000 if thorough else 4000)
